@@ -310,7 +310,8 @@ def c11_7(ctx, ss):
         raise AnchorMissing("_build_decay_modes: expected one loop that recurses into nested dictionaries")
     lp = loops[0]
     rec = [c for c in pf.calls_in(lp) if txt(c.func) == "_build_decay_modes"]
-    clean = not any(isinstance(x, (ast.Break, ast.Continue)) for x in ast.walk(lp)) and len(rec) == 1 and txt(rec[0].args[0]) == ff.params[0]
+    # (`continue` is allowed: a guard clause `if not isinstance(x, dict): continue` shows up in the path conditions below)
+    clean = not any(isinstance(x, ast.Break) for x in ast.walk(lp)) and len(rec) == 1 and txt(rec[0].args[0]) == ff.params[0]
     ok = False
     form = "?"
     if len(stores) == 1 and isinstance(lp.iter, ast.Call) and txt(lp.iter.func) == "enumerate" and isinstance(lp.target, ast.Tuple):
